@@ -178,12 +178,18 @@ def load_known():
         return json.load(f).get('findings', [])
 
 
+def _glob(pat, text):
+    """Glob where only '*' is special (sites contain brackets)."""
+    import re
+    rx = '.*'.join(re.escape(part) for part in pat.split('*'))
+    return re.fullmatch(rx, text) is not None
+
+
 def match_known(known, prop, v):
     for k in known:
         if k.get('status') != 'known' or k.get('property') != prop:
             continue
-        if (fnmatch.fnmatchcase(v['site'], k['site'])
-                and fnmatch.fnmatchcase(v['symptom'], k['symptom'])):
+        if _glob(k['site'], v['site']) and _glob(k['symptom'], v['symptom']):
             return k
     return None
 
